@@ -225,21 +225,18 @@ theorem skipBR_bytes_total (b : Bytes) (cap : Nat) (t : UInt8) :
 
 /-! ## SkipDecoder over bufiox.Reader -/
 
-/-- sound (live source): success ⇒ a well-formed value within 65 levels, returned exactly, consumed
-    exactly, ReadLen += its length -/
-theorem bufioxDec_sound (r r' : Rd) (t : UInt8) (out : Bytes) (hok : RdOK r) (hl : r.Live)
+/-- SOUND over ANY source (any fragmentation, errors anywhere, spurious failures): success ⇒ what the
+    reader owed starts with a well-formed value within 65 levels; exactly it is returned, exactly it
+    is consumed, ReadLen += its length -/
+theorem bufioxDec_sound (r r' : Rd) (t : UInt8) (out : Bytes) (hok : RdOK r)
     (hx : bufioxDecNext r t = .ok (out, r')) :
     ∃ n, refLen 65 t r.remaining = some n ∧ n ≤ r.remaining.length ∧ out = r.remaining.take n ∧
       r'.remaining = r.remaining.drop n ∧ r'.readLen = r.readLen + n := by
-  have h2 := bufioxDecNext_exact r t hok hl
-  rw [defaultRecursionDepth_eq] at h2
-  cases hb : refTpl 64 t r.remaining with
-  | none => rw [hb] at h2; obtain ⟨e, he⟩ := h2; rw [he] at hx; cases hx
-  | some n =>
-    rw [hb] at h2
-    obtain ⟨r1, hy, hrem, hlen, _⟩ := h2
-    rw [hy] at hx
+  rcases bufioxDecNext_any r t hok with ⟨e, he⟩ | ⟨n, r1, hb, hy, hrem, hlen, _⟩
+  · rw [he] at hx; cases hx
+  · rw [hy] at hx
     have hinj := Prod.mk.inj (Out.ok.inj hx)
+    rw [defaultRecursionDepth_eq] at hb
     have h65 := refTpl_le_refLen 64 t _ n hb
     exact ⟨n, h65, refLen_le h65, hinj.1.symm, by rw [← hinj.2]; exact hrem, by rw [← hinj.2]; exact hlen⟩
 
@@ -252,14 +249,21 @@ theorem bufioxDec_complete (r : Rd) (t : UInt8) (n : Nat) (hok : RdOK r) (hl : r
   rw [defaultRecursionDepth_eq, refLen_le_refTpl 64 t _ n h] at h2
   exact h2
 
-/-- total (live source): a value or an error — no panic (no slice out of range on the peeked
+/-- TOTAL over ANY source: a value or an error — no panic (no slice out of range on the peeked
     window, no nil window), loops terminate -/
-theorem bufioxDec_total (r : Rd) (t : UInt8) (hok : RdOK r) (hl : r.Live) :
+theorem bufioxDec_total (r : Rd) (t : UInt8) (hok : RdOK r) :
     (∃ x, bufioxDecNext r t = .ok x) ∨ (∃ e, bufioxDecNext r t = .err e) := by
-  have h2 := bufioxDecNext_exact r t hok hl
-  cases hb : refTpl Facts.defaultRecursionDepth t r.remaining with
-  | none => rw [hb] at h2; exact Or.inr h2
-  | some n => rw [hb] at h2; obtain ⟨r', hx, _⟩ := h2; exact Or.inl ⟨_, hx⟩
+  rcases bufioxDecNext_any r t hok with he | ⟨n, r1, _, hy, _⟩
+  · exact Or.inr he
+  · exact Or.inl ⟨_, hy⟩
+
+/-- over ANY source: whatever is not a well-formed value within 65 levels is rejected with an error -/
+theorem bufioxDec_rejects_malformed (r : Rd) (t : UInt8) (hok : RdOK r) (h : refLen 65 t r.remaining = none) :
+    ∃ e, bufioxDecNext r t = .err e := by
+  rcases bufioxDec_total r t hok with ⟨x, hx⟩ | he
+  · obtain ⟨n, h1, _⟩ := bufioxDec_sound r x.2 t x.1 hok hx
+    rw [h] at h1; cases h1
+  · exact he
 
 /-- bytes-backed reader, every byte string, every capacity, every type byte: total -/
 theorem bufioxDec_bytes_total (b : Bytes) (cap : Nat) (t : UInt8) :
@@ -300,19 +304,18 @@ theorem bufioxDec_bytes_complete (b : Bytes) (cap : Nat) (t : UInt8) (n : Nat) (
 
 /-! ## ReaderSkipDecoder over a plain io.Reader (`Delivers`: Lemmas/SkipTplReader.lean) -/
 
+/-- SOUND over EVERY source script — no hypothesis at all: success ⇒ the unread stream starts with a
+    well-formed value within 65 levels, exactly it is returned, and the source has been read exactly
+    that far (nothing beyond the value is consumed) -/
 theorem readerDec_sound (src src' : Src) (t : UInt8) (out : Bytes)
-    (hd : Delivers src.script src.stream.length = true) (hx : readerDecNext src t = .ok (out, src')) :
+    (hx : readerDecNext src t = .ok (out, src')) :
     ∃ n, refLen 65 t src.stream = some n ∧ n ≤ src.stream.length ∧ out = src.stream.take n ∧
       src'.stream = src.stream.drop n := by
-  have h2 := readerDecNext_exact src t hd
-  rw [defaultRecursionDepth_eq] at h2
-  cases hb : refTpl 64 t src.stream with
-  | none => rw [hb] at h2; obtain ⟨e, he⟩ := h2; rw [he] at hx; cases hx
-  | some n =>
-    rw [hb] at h2
-    obtain ⟨s1, hy, hrem, _⟩ := h2
-    rw [hy] at hx
+  rcases readerDecNext_any src t with ⟨e, he⟩ | ⟨n, s1, hb, hy, hrem⟩
+  · rw [he] at hx; cases hx
+  · rw [hy] at hx
     have hinj := Prod.mk.inj (Out.ok.inj hx)
+    rw [defaultRecursionDepth_eq] at hb
     have h65 := refTpl_le_refLen 64 t _ n hb
     exact ⟨n, h65, refLen_le h65, hinj.1.symm, by rw [← hinj.2]; exact hrem⟩
 
@@ -324,13 +327,20 @@ theorem readerDec_complete (src : Src) (t : UInt8) (n : Nat)
   rw [defaultRecursionDepth_eq, refLen_le_refTpl 64 t _ n h] at h2
   exact h2
 
-/-- a value or an error: no panic, and the read-full loop terminates (the model's fuel suffices) -/
-theorem readerDec_total (src : Src) (t : UInt8) (hd : Delivers src.script src.stream.length = true) :
+/-- TOTAL over EVERY source script: a value or an error — no panic -/
+theorem readerDec_total (src : Src) (t : UInt8) :
     (∃ x, readerDecNext src t = .ok x) ∨ (∃ e, readerDecNext src t = .err e) := by
-  have h2 := readerDecNext_exact src t hd
-  cases hb : refTpl Facts.defaultRecursionDepth t src.stream with
-  | none => rw [hb] at h2; exact Or.inr h2
-  | some n => rw [hb] at h2; obtain ⟨s', hx, _⟩ := h2; exact Or.inl ⟨_, hx⟩
+  rcases readerDecNext_any src t with he | ⟨n, s1, _, hy, _⟩
+  · exact Or.inr he
+  · exact Or.inl ⟨_, hy⟩
+
+/-- over EVERY source script: whatever is not a well-formed value within 65 levels is rejected -/
+theorem readerDec_rejects_malformed (src : Src) (t : UInt8) (h : refLen 65 t src.stream = none) :
+    ∃ e, readerDecNext src t = .err e := by
+  rcases readerDec_total src t with ⟨x, hx⟩ | he
+  · obtain ⟨n, h1, _⟩ := readerDec_sound src x.2 t x.1 hx
+    rw [h] at h1; cases h1
+  · exact he
 
 /-! ## agreement of all five facilities -/
 
@@ -364,18 +374,15 @@ theorem three_agree (b : Bytes) (t : UInt8) (n cap : Nat) (script : List Resp)
     exact ⟨s', hx, hrem⟩
 
 /-- … and whatever is not a well-formed value within 65 levels (container nesting ≥ 65 in particular)
-    is rejected by all of them with an error -/
+    is rejected by all of them with an error — the stream facilities over EVERY source script -/
 theorem all_reject_beyond_65 (b : Bytes) (t : UInt8) (cap : Nat) (script : List Resp)
-    (hcap : b.length ≤ cap) (hsz : b.length ≤ sizeBound)
-    (hst : Steady Facts.maxConsecutiveEmptyReads script b.length 0 = true)
-    (h : refLen 65 t b = none) :
+    (hcap : b.length ≤ cap) (hsz : b.length ≤ sizeBound) (h : refLen 65 t b = none) :
     (∃ e, skipBin b t = .err e) ∧ (∃ e, bytesDecNext ⟨b, 0⟩ t = .err e) ∧
     (∃ e, skipBR t (Rd.newBytes b cap) = .err e) ∧ (∃ e, skipBR t (Rd.newDefault ⟨b, script⟩) = .err e) ∧
     (∃ e, bufioxDecNext (Rd.newBytes b cap) t = .err e) ∧
     (∃ e, bufioxDecNext (Rd.newDefault ⟨b, script⟩) t = .err e) ∧
     (∃ e, readerDecNext ⟨b, script⟩ t = .err e) := by
   have hok := newDefault_ok b script hsz
-  have hl := live_newDefault b script hst
   obtain ⟨hr, _⟩ := newDefault_remaining b script
   refine ⟨skipBin_rejects_deep b t h, ?_, ?_, ?_, ?_, ?_, ?_⟩
   · rcases bytesDec_total b t with ⟨x, hx⟩ | he
@@ -388,13 +395,8 @@ theorem all_reject_beyond_65 (b : Bytes) (t : UInt8) (cap : Nat) (script : List 
   · rcases bufioxDec_bytes_total b cap t with ⟨x, hx⟩ | he
     · obtain ⟨n, h1, _⟩ := bufioxDec_bytes_sound b cap t x.1 x.2 hcap hx; rw [h] at h1; cases h1
     · exact he
-  · rcases bufioxDec_total _ t hok hl with ⟨x, hx⟩ | he
-    · obtain ⟨n, h1, _⟩ := bufioxDec_sound _ x.2 t x.1 hok hl hx; rw [hr, h] at h1; cases h1
-    · exact he
-  · have hd := Verif.steady_delivers _ script b.length 0 hst
-    rcases readerDec_total ⟨b, script⟩ t hd with ⟨x, hx⟩ | he
-    · obtain ⟨n, h1, _⟩ := readerDec_sound ⟨b, script⟩ x.2 t x.1 hd hx; rw [h] at h1; cases h1
-    · exact he
+  · exact bufioxDec_rejects_malformed _ t hok (by rw [hr]; exact h)
+  · exact readerDec_rejects_malformed ⟨b, script⟩ t h
 
 /-- non-vacuity: list<string>["A", ""] followed by garbage, bytes-backed and through a script that
     delivers one byte per read with the last byte together with io.EOF -/
